@@ -2,6 +2,7 @@ import XcpProofs.FsDefs
 import XcpProofs.WalkMore
 import XcpProofs.MirrorExample
 import XcpProofs.Overlay
+import XcpProofs.MultiSource
 /-! # C02 — exit 0 implies the destination tree mirrors the selected source tree
 
 Model slice: `targetBase` (cp's mapping rule), `walkEntry` (one operation per selected entry, by kind),
@@ -178,5 +179,32 @@ theorem existing_destination_keeps_other_entries (fs : Fs) (c : Cfg) (hd : c.der
 example : Node.overlay (some (.dir [([1], .file 0), ([2], .file 5), ([3], .dir [])]))
     (.dir [([1], .file 7), ([4], .file 8), ([3], .dir [([9], .file 1)])]) =
     .dir [([1], .file 7), ([2], .file 5), ([3], .dir [([9], .file 1)]), ([4], .file 8)] := by rfl
+
+/-- SEVERAL SOURCES in one run, `xcp -r s1 … sn DEST/` with `DEST` an existing plain directory: `runSources` (each
+source's target evaluated against the state the previous sources left, as the real walker does) succeeds, and the final
+file system is the initial one with, for each source in argv order, `DEST/basename(si)` overlaid with the tree `si`
+designates — provided the base names are distinct (two sources onto one name is finding F10), no source lies inside a
+target or vice versa, and each target is compatible with its source in the initial state -/
+theorem several_sources_each_mirrored (fs : Fs) (c : Cfg) (texts : GiTexts) (dest : RPath) (items : List CopySrc) (fuel : Nat)
+    (hd : c.dereference = false) (hn : c.noClobber = false) (hg : c.gitignore = false)
+    (hnt : c.noTargetDir = false)
+    (hwf : FsEq fs fs)
+    (hdest : PlainTarget fs dest) (hdd : ∃ es, fs.root.getAt dest.names = some (.dir es))
+    (hfuel : fuel < walkFuel)
+    (hsrc : ∀ e ∈ items, PlainTarget fs e.path ∧ e.path.fileName = some e.base ∧
+      fs.root.getAt e.path.names = some e.node ∧ e.node.Copyable fuel ∧ e.path.names.length + walkFuel < 256)
+    (hnd : (items.map (·.base)).Nodup)
+    (hun : ∀ e ∈ items, ∀ e' ∈ items,
+      ¬ e.path.names <+: dest.names ++ [e'.base] ∧ ¬ dest.names ++ [e'.base] <+: e.path.names)
+    (hcomp : ∀ e ∈ items, Compatible (fs.root.getAt (dest.names ++ [e.base])) e.node)
+    (hlen : dest.names.length + 1 + walkFuel < 256) :
+    (∃ fs', runSources fs c texts dest (items.map (·.path)) = ⟨.ok, fs'⟩ ∧
+      FsEq fs' { fs with root := overlayAll fs.root dest.names items fs.root }) ∧
+    (∃ fs', runSources fs c texts dest (items.map (·.path)) = ⟨.ok, fs'⟩ ∧ ∀ e ∈ items,
+      obsAt fs'.root (dest.names ++ [e.base]) =
+        some (Node.overlay (fs.root.getAt (dest.names ++ [e.base])) e.node).obs ∧
+      obsAt fs'.root e.path.names = some e.node.obs) :=
+  ⟨multi_overlay fs c texts dest items fuel hd hn hg hnt hwf hdest hdd hfuel hsrc hnd hun hcomp hlen,
+   multi_overlay_reads fs c texts dest items fuel hd hn hg hnt hwf hdest hdd hfuel hsrc hnd hun hcomp hlen⟩
 
 end Xcp.C02
